@@ -31,7 +31,15 @@ def cases(tier, rng):
             for r in range(0, 8):
                 for sur in (0, 1):
                     yield {'k': 'hash', 'Nb': Nb, 'Noc': 'Nb', 'ml': ml + sur, 'L': 8 * ml - r, 'keyc': 'absent', 'opt': ''}
-        for ml in (4095, 4096, 4099, 65539):          # long inputs
+        # the customary output sizes of every state size (the ones implementations ship precomputed initial values for)
+        for No in (128, 160, 224, 256, 384, 512, 1024):
+            for ml in (0, 3, nb + 1):
+                yield {'k': 'hash', 'Nb': Nb, 'Noc': 'std%d' % No, 'ml': ml, 'L': None, 'keyc': 'absent', 'opt': ''}
+        # data where word additions hit all-ones / zero / carries (plain hashing starts from a zero chaining value)
+        for pat in ('ones', 'zero', 'xwords', 'x7f', 'x80'):
+            for ml in (nb, nb + 5, 3 * nb):
+                yield {'k': 'hash', 'Nb': Nb, 'Noc': 'Nb', 'ml': ml, 'L': None, 'keyc': ['absent', 'short'][ml % 2], 'opt': '', 'pat': pat}
+        for ml in (4095, 4096, 4099, 65536, 65539):          # long inputs
             yield {'k': 'hash', 'Nb': Nb, 'Noc': 'Nb', 'ml': ml, 'L': None, 'keyc': 'short' if ml % 2 else 'absent', 'opt': ''}
         # bit lengths far shorter than the buffer, including L = 0 with a non-empty buffer (the quantifier is 0 <= L <= 8|M|)
         for ml in (1, 5, nb, nb + 1, 3 * nb):
@@ -67,6 +75,7 @@ def cases(tier, rng):
                 yield {'k': 'ubi', 'Nb': Nb, 'pos': base - kk, 'ml': 3 * nb + 1, 'L': None}
 
 def noval(c, Nb):
+    if c.startswith('std'): return int(c[3:])
     return {'8': 8, 'Nb-8': Nb - 8, 'Nb': Nb, 'Nb+8': Nb + 8, '2Nb': 2 * Nb, '4Nb': 4 * Nb, '24': 24, 'Nb+16': Nb + 16}[c]
 
 def keyof(rng, c, nb):
@@ -156,7 +165,7 @@ def run(case, ctx, rng):
     k = case['k']; Nb = case['Nb']; nb = Nb // 8
     if k == 'hash':
         No = noval(case['Noc'], Nb)
-        M = rng.randbytes(case['ml']); L = case['L']
+        M = pattern(rng, case['ml'], case.get('pat', 'rand')); L = case['L']
         key = keyof(rng, case['keyc'], nb)
         kw = {}
         opt = case['opt']
